@@ -295,6 +295,7 @@ Eval(t, env) ==
                                         [i \in 1..Len(v.kv) |-> VStr(v.kv[i][1])], 1, t.args[1].n, SubSeq(t.args, 2, n), env, Fold0))
                            ELSE R(AnyOut, rc.log, FALSE))      \* "one fixed order": which one is not stated
                 ELSE R(Err("other"), rc.log, rc.lk)
+             ELSE IF t.f \in {"has", "coalesce"} THEN R(AnyOut, rc.log, FALSE)   \* method form: no property gives it a meaning
              ELSE R(Err("either"), rc.log, FALSE)              \* no such method: absent attribute or not callable
 
 Env0(vars, progs, funcs) == [vars |-> vars, progs |-> progs, funcs |-> funcs, u |-> 1, h |-> 0, path |-> {}]
